@@ -270,6 +270,8 @@ def matrix(al, depth):
     """(label, expression) for the complete parent x slot x child matrix; depth 3 nests once more."""
     ks = kinds(al)
     bottom = depth1(al, depth - 1)
+    if depth == 3:
+        bottom = [b for b in bottom if b[0] in D3_BOTTOM]
     if depth == 2:
         for kind in ks:
             for slot in range(kind[1]):
@@ -372,13 +374,14 @@ def ident_positions(al):
     ]
 
 
-def ident_cases(al):
+def ident_cases(al, thorough=True):
     """(label, identifier, ast).  Reserved words followed by alphanumerics must be plain identifiers
     (TatSu's name guard); reserved words followed by '_' are the finding described in the module docstring."""
     names = [(n, 'plain') for n in IDENT_PLAIN]
     for w in sorted(RESERVED):
-        names += [(w + 'x', 'reserved+alnum'), (w + '1', 'reserved+alnum'), (w[0] + w, 'alnum+reserved'),
-                  ('_' + w, 'underscore+reserved'), (w + '_x', 'reserved+underscore'), (w + '_', 'reserved+underscore')]
+        names += [(w + '1', 'reserved+alnum'), (w + '_x', 'reserved+underscore')]
+        if thorough:
+            names += [(w + 'x', 'reserved+alnum'), (w[0] + w, 'alnum+reserved'), ('_' + w, 'underscore+reserved'), (w + '_', 'reserved+underscore')]
     for name, cls in names:
         if name in RESERVED:
             continue
@@ -516,7 +519,8 @@ TOKEN_ALPHABET = [
     'IN', 'IS', 'NULL', '#t', '.', '[', ']', '%s', 'AS', 'DISTINCT', 'LIMIT', 'BALANCES', 'PRINT', 'OPEN', 'ON', 'CLOSE', 'CLEAR',
     ';', '/*', '*/', '=', '<', 'BETWEEN', 'PIVOT', 'HAVING', 'DESC', 'JOURNAL', 'AT', '%(x)s', '1.5', 'TRUE', 'OR',
 ]
-EDIT_ALPHABET_QUICK = ['SELECT', 'a', '1', '(', ')', ',', '-', 'AND', 'NOT', '.', "'s'", 'FROM']
+EDIT_ALPHABET_QUICK = ['a', '(', ',', 'NOT']
+EDIT_ALPHABET_THOROUGH = ['SELECT', 'FROM', 'WHERE', 'BY', 'a', '1', "'s'", '2020-01-01', '(', ')', ',', '-', '*', 'AND', 'NOT', 'IN', 'NULL', '#t', '.', '%s', 'AS', ';', '/*', '=']
 
 VALID_CORPUS = [
     "SELECT a",
@@ -582,7 +586,7 @@ EDGE_TEXTS = [
 
 def edits(thorough):
     """Every single-token deletion / substitution / insertion of the valid corpus (deduplicated, ordered)."""
-    alphabet = TOKEN_ALPHABET if thorough else EDIT_ALPHABET_QUICK
+    alphabet = EDIT_ALPHABET_THOROUGH if thorough else EDIT_ALPHABET_QUICK
     seen = set()
     for st in VALID_CORPUS:
         toks = st.split(' ')
@@ -617,53 +621,79 @@ def token_sequences():
 # ---------------------------------------------------------------------------------------------------------
 # work units
 
-QUICK_PRINTS = [(p, s) for p in ('minimal', 'full') for s in (0, 1, 2)]
-THOROUGH_PRINTS = [(p, s) for p in ('minimal', 'full') for s in (0, 1, 2, 3)]
+ALL6 = [(p, s) for p in ('minimal', 'full') for s in (0, 1, 2)]
+ALL8 = [(p, s) for p in ('minimal', 'full') for s in (0, 1, 2, 3)]
+
+# bottom level of the depth-3 chains: one representative per rung of the ladder and per structural class
+D3_BOTTOM = ['Or2', 'And2', 'Not', 'Equal', 'In', 'NotIn', 'IsNull', 'Between', 'Add', 'Sub', 'Mul', 'Neg', 'Attribute',
+             'Function1', 'SelectTarget', 'Column', 'Integer', 'List']
 
 
-def units(tier, seed):
+def prints_for(group, thorough, idx):
+    """Which (parens, style) prints the idx-th AST of a group gets.  The first print is always a minimal one.
+    A fully parenthesised text costs about three times a minimal one to parse (every pair of parentheses
+    re-enters the whole expression chain of the PEG), so the minimal mode -- the one that carries the
+    precedence statement -- gets every spelling and the full mode a spelling that rotates with idx; over
+    a group every (mode, spelling) combination occurs."""
+    if group in ('expr-d2', 'nary-bool'):
+        if thorough:
+            return [('minimal', 0), ('minimal', 1), ('minimal', 2), ('minimal', 3), ('full', idx % 4), ('full', (idx + 2) % 4)]
+        return [('minimal', 0), ('minimal', 1), ('minimal', 2), ('full', idx % 3)]
+    if group == 'ident':
+        if thorough:
+            return [('minimal', idx % 4), ('full', (idx + 1) % 4)]
+        return [('minimal', idx % 3)] if idx % 4 else [('full', idx // 4 % 3)]
+    if group == 'expr-d3':
+        return [('minimal', idx % 4)] + ([('full', idx // 8 % 4)] if idx % 8 == 0 else [])
+    if thorough:
+        r = idx % 4
+        return [('minimal', r), ('full', (r + 1) % 4), ('minimal', (r + 2) % 4), ('full', (r + 3) % 4)]
+    r = idx % 3
+    return [('minimal', r), ('full', (r + 1) % 3), ('minimal', (r + 2) % 3)]
+
+
+def units(tier, seed, diff_all=True):
     """Deterministic enumeration of work units.
-    ('ast', group, label, node, parens, style, salt) | ('text', group, label, text, expected or None)"""
+    ('ast', group, label, node, parens, style, salt, diff) | ('text', group, label, text, expected or None, diff)
+    diff: run the regenerated parser on this text too (always, unless its source is byte-identical to the
+    shipped parser.py AND the tier is quick: then one print per AST and every rejected text are compared)."""
     thorough = tier == 'thorough'
     al = Alphabet(seed)
-    prints = THOROUGH_PRINTS if thorough else QUICK_PRINTS
 
     def wrap(e):
         return _sel([A.Target(e, None)])
 
-    k = 0
+    def emit(group, label, node, idx):
+        for j, (p, s) in enumerate(prints_for(group, thorough, idx)):
+            yield ('ast', group, label, node, p, s, seed + idx + j, diff_all or j == 0)
+
+    idx = 0
     for label, e in matrix(al, 2):
-        for p, s in prints:
-            k += 1
-            yield ('ast', 'expr-d2', label, wrap(e), p, s, seed + k)
+        idx += 1
+        yield from emit('expr-d2', label, wrap(e), idx)
     for j, e in enumerate(boolean_extras(al)):
-        for p, s in prints:
-            k += 1
-            yield ('ast', 'nary-bool', ('extra', j), wrap(e), p, s, seed + k)
+        idx += 1
+        yield from emit('nary-bool', ('extra', j), wrap(e), idx)
     for label, text, exp in literal_cases(al):
-        yield ('text', 'literal', label, text, exp)
-    for label, name, node in ident_cases(al):
-        for p, s in (('minimal', 0), ('full', 2)):
-            k += 1
-            yield ('ast', 'ident', label + (name,), node, p, s, seed + k)
+        yield ('text', 'literal', label, text, exp, True)
+    for label, name, node in ident_cases(al, thorough):
+        idx += 1
+        yield from emit('ident', label + (name,), node, idx)
     for label, node in select_cases(al, thorough):
-        for p, s in prints:
-            k += 1
-            yield ('ast', 'select', label, node, p, s, seed + k)
+        idx += 1
+        yield from emit('select', label, node, idx)
     for label, node in other_statement_cases(al, thorough):
-        for p, s in prints:
-            k += 1
-            yield ('ast', label[0], label, node, p, s, seed + k)
+        idx += 1
+        yield from emit(label[0], label, node, idx)
     for text in EDGE_TEXTS:
-        yield ('text', 'edge', None, text, None)
+        yield ('text', 'edge', None, text, None, True)
     for text in token_sequences():
-        yield ('text', 'tokens', None, text, None)
+        yield ('text', 'tokens', None, text, None, True)
     for text in edits(thorough):
-        yield ('text', 'edits', None, text, None)
+        yield ('text', 'edits', None, text, None, True)
     if thorough:
         for j, (label, e) in enumerate(matrix(al, 3)):
-            yield ('ast', 'expr-d3', label, wrap(e), 'minimal', (0, 1, 2, 3)[j % 4], seed + j)
-            yield ('ast', 'expr-d3', label, wrap(e), 'full', (2, 3, 0, 1)[j % 4], seed + j)
+            yield from emit('expr-d3', label, wrap(e), j)
 
 
 def expr_levels(node):
@@ -700,7 +730,7 @@ def check_unit(u, acc, record_case=True):
     """Run one work unit on both parsers; returns the list of (fingerprint, what, case)."""
     out = []
     if u[0] == 'ast':
-        _, group, label, node, parens, style, salt = u
+        _, group, label, node, parens, style, salt, diff = u
         try:
             toks = tokens(node, parens)
         except NotExpressible:
@@ -712,15 +742,28 @@ def check_unit(u, acc, record_case=True):
         if parens == 'minimal' and (group.startswith('expr') or group == 'nary-bool') and count_grouping(node):
             acc.count('minimal_prints_needing_parentheses')
         acc.count(f'prints[{parens},style{style}]')
+        if len(acc.samples) < 2 and salt % 41 == 0:
+            acc.sample({'group': group, 'parens': parens, 'style': style, 'text': text[:300]}, limit=2)
     else:
-        _, group, label, text, expected = u
+        _, group, label, text, expected, diff = u
         parens = style = None
     acc.count(f'texts[{group}]')
     acc.add('texts', hash(text))
 
-    shipped = public_parse(text)
-    regen = run_parser(_REGEN, text)
-    acc.count('parses', 2)
+    if expected is not None:
+        public = public_parse(text)                 # the round trip goes through the public entry point
+        shipped = public if public[0] == 'ok' else run_parser(bq_parser.parser, text)
+    else:
+        public = None
+        shipped = run_parser(bq_parser.parser, text)   # same level as the regenerated parser (no error wrapping)
+    acc.count('parses')
+    if diff:
+        regen = run_parser(_REGEN, text)
+        acc.count('parses')
+        acc.count('differential_texts')
+    else:
+        regen = None
+        acc.count('differential_skipped_source_identical')
     acc.count(f'outcome[{shipped[0]}]')
     if shipped[0] == 'reject':
         acc.add('reject_positions', shipped[1])
@@ -734,7 +777,7 @@ def check_unit(u, acc, record_case=True):
             acc.add('cells', label)
         elif group == 'expr-d3':
             acc.add('cells3', label)
-        if not (shipped[0] == 'ok' and same_ast(shipped[1], expected)):
+        if not (public[0] == 'ok' and same_ast(public[1], expected)):
             if group == 'ident' and underscore_after_reserved(label[-1]):
                 fp = 'ident:underscore-after-reserved-word'
                 acc.add('underscore_identifiers_broken', (label[-1], label[1]))
@@ -747,13 +790,15 @@ def check_unit(u, acc, record_case=True):
             else:
                 fp = f'roundtrip:{group}:{parens}'
             case = dict(base, mode='roundtrip', parens=parens, style=style, expected=ast_to_json(expected))
-            out.append((fp, f'text {text!r} (printed with parens={parens}, style={style}) parses to {show(shipped)}; '
+            out.append((fp, f'text {text!r} (printed with parens={parens}, style={style}) parses to {show(public)}; '
                             f'expected the AST it was printed from: {expected!r}', case))
         elif group == 'ident' and underscore_after_reserved(label[-1]):
             acc.add('underscore_identifiers_fine', (label[-1], label[1]))
     else:
         acc.count('no_expected_ast')
-    if not outcomes_agree(shipped, regen):
+    if regen is None:
+        pass
+    elif not outcomes_agree(shipped, regen):
         kind = 'ast-differs' if shipped[0] == regen[0] == 'ok' else ('error-position-differs' if shipped[0] == regen[0] else 'accept-differs')
         out.append((f'parser-vs-grammar:{kind}',
                     f'text {text!r}: shipped parser -> {show(shipped)}; parser generated from bql.ebnf -> {show(regen)}',
@@ -770,15 +815,14 @@ def _first_constant(node):
     return None
 
 
-def shard_fn(shard, nshards, tier, seed):
+def shard_fn(shard, nshards, tier, seed, diff_all):
     acc = par.Acc()
-    for i, u in enumerate(units(tier, seed)):
-        if i % nshards != shard:
+    only = [g for g in os.environ.get('VERIF_C06_GROUPS', '').split(',') if g]     # development aid: restrict to some groups
+    for i, u in enumerate(units(tier, seed, diff_all)):
+        if i % nshards != shard or (only and u[1] not in only):
             continue
         for fp, what, case in check_unit(u, acc):
             acc.violation(fp, what, case)
-        if u[0] == 'ast' and i % 997 == 0:
-            acc.sample({'group': u[1], 'parens': u[4], 'style': u[5], 'text': render(tokens(u[3], u[4]), u[5], u[6])[:300]}, limit=2)
         acc.count('units')
     return acc
 
@@ -790,17 +834,18 @@ def replay(case):
     label = case.get('label')
     label = tuple(label) if isinstance(label, list) else label
     if case['mode'] == 'roundtrip':
-        u = ('text', case['group'], label, case['text'], expected)
+        u = ('text', case['group'], label, case['text'], expected, True)
         res = check_unit(u, acc)
         # keep the mode of the recorded print in the message
         return [Violation(fp, what, case) for fp, what, _ in res]
-    u = ('text', case['group'], label, case['text'], None)
+    u = ('text', case['group'], label, case['text'], None, True)
     return [Violation(fp, what, case) for fp, what, _ in check_unit(u, acc)]
 
 
 def run(ctx):
     load_regenerated()
-    total = par.run_shards(shard_fn, ctx.jobs, ctx.tier, ctx.seed, nshards=ctx.jobs * 4)
+    diff_all = ctx.thorough or not _REGEN_INFO['generated_source_identical_to_shipped_parser_py'] or bool(os.environ.get('C06_DIFF_ALL'))
+    total = par.run_shards(shard_fn, ctx.jobs, ctx.tier, ctx.seed, diff_all, nshards=ctx.jobs * 4)
     n = total.n
     s = total.sets
     al = Alphabet(ctx.seed)
@@ -846,7 +891,11 @@ def run(ctx):
     expected_cells = nslots * nchildren
     # the matrix must be complete: visited + cells without text == slots x children
     missing = expected_cells - len(s['cells']) - sum(1 for _ in _cells_without_text(al))
-    if missing:
+    restricted = bool(os.environ.get('VERIF_C06_GROUPS'))
+    if restricted:
+        cov['exhaustive'] = False
+        cov['bound'] += ' -- RESTRICTED by VERIF_C06_GROUPS (development run)'
+    elif missing:
         raise AssertionError(f'depth-2 matrix incomplete: {missing} cells neither visited nor inexpressible')
     return Result(cov, total.violations, assumptions=[
         'only ASTs that have a BQL text are generated (non-negative finite numerics, no NULL in lists, primaries under attribute/subscript, '
